@@ -269,6 +269,7 @@ with uses_loc_alt (a : alt) : bool :=
   end.
 
 Definition is_loop_name (n : string) := startswith "_loop" n.
+Definition is_loop1_name (n : string) := startswith "_loop1" n.
 Definition is_gather_name (n : string) := startswith "_gather" n.
 
 (* Rule.flatten *)
